@@ -28,7 +28,7 @@ META = dict(
          "permutation of their yield order. Oracle (order-free, computed from the event SET): one result per key; "
          "covered row -> that event's flag, uncovered -> masked (list) / UNKNOWN (dict); data/tinp/zinp/lat/lon equal "
          "the source on covered rows; list then dict collected from the same ContextResult objects. Equality with the order-free reference on "
-         "Scale: 1500-row collections tiled by 4-5 windows in every order, stream runs on 300 / 1500 rows (sorted, shuffled, after an earlier run on another table of the same size), every context with its own probe code. every history is confluence. non-trivial = at least two events",
+         "every history is confluence. Scale: 1500-row collections tiled by 4-5 windows in every order, stream runs on 300 / 1500 rows (sorted, shuffled, after an earlier run on another table of the same size), every context with its own probe code. non-trivial = at least two events",
     bounds={"quick": {"rows": 4, "events": 3}, "thorough": {"rows": 5, "events": 4}},
     not_judged=["values of data/axis arrays on rows no context covered", "overlapping windows for the same key"],
     assumptions=[],
